@@ -216,6 +216,32 @@ func ResidueReconfigured() *G {
 	return g
 }
 
+// ResidueBig is the group of quadratic residues modulo the 3072-bit MODP safe prime of RFC 3526 (group 15), built through
+// SetParams: its EmbedLen (381) exceeds 255, so the 16-bit length field of the residue-group embedding is really used.
+func ResidueBig() *G {
+	P, _ := new(big.Int).SetString("ffffffffffffffffc90fdaa22168c234c4c6628b80dc1cd129024e088a67cc74"+
+		"020bbea63b139b22514a08798e3404ddef9519b3cd3a431b302b0a6df25f1437"+
+		"4fe1356d6d51c245e485b576625e7ec6f44c42e9a637ed6b0bff5cb6f406b7ed"+
+		"ee386bfb5a899fa5ae9f24117c4b1fe649286651ece45b3dc2007cb8a163bf05"+
+		"98da48361c55d39a69163fa8fd24cf5f83655d23dca3ad961c62f356208552bb"+
+		"9ed529077096966d670c354e4abc9804f1746c08ca18217c32905e462e36ce3b"+
+		"e39e772c180e86039b2783a2ec07a28fb5c55df06f4c52c9de2bcbf695581718"+
+		"3995497cea956ae515d2261898fa051015728e5a8aaac42dad33170d04507a33"+
+		"a85521abdf1cba64ecfb850458dbef0a8aea71575d060c7db3970f85a6e1e4c7"+
+		"abf5ae8cdb0933d71e8c94e04a25619dcee3d2261ad2ee6bf12ffa06d98a0864"+
+		"d87602733ec86a64521f2b18177b200cbbe117577a615d6c770988c0bad946e2"+
+		"08e24fa074e5ab3143db5bfce0fd108e4b82d120a93ad2caffffffffffffffff", 16)
+	Q := new(big.Int).Rsh(P, 1)
+	rg := new(p256.ResidueGroup)
+	rg.SetParams(P, Q, big.NewInt(2), big.NewInt(4))
+	g := &G{Name: "residue-3072", Grp: rg, PanicsSeen: map[string]string{}}
+	g.Q = new(big.Int).Set(Q)
+	g.probe()
+	g.NullEnc, g.GenEnc = Enc(g.Point().Null()), Enc(g.Gen())
+	g.ZeroEnc, g.OneEnc = Enc(g.Scalar().Zero()), Enc(g.Scalar().One())
+	return g
+}
+
 // ResiduePQ returns the modulus and subgroup order of a residue group instance (nil, nil for other groups).
 func ResiduePQ(g *G) (P, Q *big.Int) {
 	switch v := g.Grp.(type) {
